@@ -18,6 +18,7 @@
 //   P<t><x>        t.push_back(x)
 //   Q<t><i>        t.push_back(t[i])
 //   E<t><x>        t.emplace_back(x)
+//   G<t><i>        t.emplace_back(t[i])
 //   I<t><p>,<x,..> t.insert(t.begin()+p, src.begin(), src.end())   (src external)
 //   R<t><n>        t.resize(n)
 //   Z<t><n>        t.reserve(n)
@@ -32,7 +33,11 @@
 //         A assignment to raw memory, R read of a dead object; '-' if none
 //   ref   'ok' when both slots equal their std::vector mirrors and ret / the
 //         comparisons agree with std::vector's, 'BAD' otherwise
-//   end;<live>;<flags>;<leak>    leak = 1 when LeakSanitizer reports a leak
+//   end;<live>;<flags>;<leak>    leak = 1 when LeakSanitizer reports a leak; the process then
+//          exits with status 77 so that the leak cannot taint later cases
+//   The observers front(), back(), operator[], data(), empty(), max_size(),
+//   (c)begin/(c)end, rbegin/rend (const and non-const) are compared with the
+//   mirror inside 'ref'.
 #include <algorithm>
 #include <cstdint>
 #include <cstring>
@@ -212,8 +217,20 @@ struct machine
             && (*sv[0] <= *sv[1]) == (rv[0] <= rv[1])
             && (*sv[0] >= *sv[1]) == (rv[0] >= rv[1]));
     for (int t(0); t < 2; ++t)
-      ok = ok && sv[t]->size() <= sv[t]->capacity() && sv[t]->capacity() >= S
-           && sv[t]->empty() == rv[t].empty();
+    {
+      SV &v(*sv[t]);
+      const SV &cv(v);
+      const RV &r(rv[t]);
+      ok = ok && v.size() <= v.capacity() && v.capacity() >= S && v.empty() == r.empty()
+           && v.data() == v.begin() && cv.data() == cv.cbegin() && cv.begin() == cv.cbegin()
+           && cv.end() == cv.cend() && v.end() == v.begin() + v.size()
+           && v.max_size() >= v.capacity();
+      if (ok && !r.empty())
+        ok = v.front() == r.front() && v.back() == r.back() && cv.front() == r.front()
+             && cv.back() == r.back() && v[0] == r[0] && cv[r.size() - 1] == r[r.size() - 1];
+      ok = ok && std::equal(v.rbegin(), v.rend(), r.rbegin(), r.rend())
+           && std::equal(cv.rbegin(), cv.rend(), r.rbegin(), r.rend());
+    }
     out += ok ? ";ok" : ";BAD";
     g_flags.clear();
     return out;
@@ -347,6 +364,10 @@ struct machine
           r.emplace_back(z[0]);
         }
         break;
+      case 'G':
+        v.emplace_back(v[static_cast<std::size_t>(z[0])]);
+        r.emplace_back(T(r[static_cast<std::size_t>(z[0])]));
+        break;
       case 'I':
       {
         const std::vector<T> src(elems(z, 1));
@@ -445,6 +466,8 @@ int main()
     const int leak(__lsan_do_recoverable_leak_check());
     std::cout << out << ";" << (leak ? 1 : 0) << std::endl;
     ++count;
+    if (leak)
+      _exit(77);  // LeakSanitizer would report this leak again for every later case
   }
   return 0;
 }
